@@ -86,6 +86,7 @@ type Engine struct {
 	intrCache sync.Map
 	tier      string
 	mapOrderSym bool
+	noIfConv  bool
 }
 
 type Worker struct {
